@@ -169,6 +169,7 @@ type World struct {
 	dbPath string
 	gen    int
 	down   bool
+	stopQueries func()
 }
 
 
@@ -991,36 +992,40 @@ func (w *World) Compare(exp *Expect) ([]Diff, error) {
 			}
 			h := txm.TxHash()
 			dest := wl.Keys[0].Std
-			raw, _, err := w.W.CreateRawTransaction([]*masswallet.TxIn{{TxId: h.String(), Vout: x.Vout}},
-				map[string]massutil.Amount{dest: mustAmount(x.Amt*Unit - Unit/100)}, 0, "", nil)
 			key := fmt.Sprintf("%s:%d", x.Tx, x.Vout)
-			if err != nil {
-				add("coin-not-buildable", name, key, "CreateRawTransaction succeeds", err.Error())
-				continue
+			// a withdrawal is built twice: without and with a lock time (the relative lock of a deposit is
+			// the same in both; the lock time only makes an ordinary input non-final)
+			lockTimes := []uint64{0}
+			if x.Class == "stk" || x.Class == "nbind" || x.Class == "bind" {
+				lockTimes = []uint64{0, 7}
 			}
-			var mtx wire.MsgTx
-			b, derr := hex.DecodeString(raw)
-			if derr == nil {
-				derr = mtx.SetBytes(b, wire.Packet)
-			}
-			if derr != nil || len(mtx.TxIn) != 1 {
-				add("coin-not-buildable", name, key, "a decodable one-input transaction", fmt.Sprint(derr))
-				continue
-			}
-			w.W.ClearUsedUTXOMark(&mtx)
-			seq := mtx.TxIn[0].Sequence
-			switch x.Class {
-			case "stk", "nbind":
-				if seq != uint64(x.Mat) {
-					add("withdraw-sequence", name, key, fmt.Sprint(x.Mat), fmt.Sprint(seq))
+			for _, lt := range lockTimes {
+				raw, _, err := w.W.CreateRawTransaction([]*masswallet.TxIn{{TxId: h.String(), Vout: x.Vout}},
+					map[string]massutil.Amount{dest: mustAmount(x.Amt*Unit - Unit/100)}, lt, "", nil)
+				if err != nil {
+					add("coin-not-buildable", name, key, "CreateRawTransaction succeeds", err.Error())
+					continue
 				}
-				// boundary: consensus lets the NEXT block spend it exactly when the wallet says withdrawable
-				lock := x.H + uint64(x.Mat) - 1
-				active := lock < uint64(exp.Synced)+1
-				_ = active
-			default:
-				if seq&wire.SequenceLockTimeDisabled == 0 && seq&wire.SequenceLockTimeMask != 0 && seq != wire.MaxTxInSequenceNum {
-					add("withdraw-sequence", name, key, "no relative lock", fmt.Sprint(seq))
+				var mtx wire.MsgTx
+				b, derr := hex.DecodeString(raw)
+				if derr == nil {
+					derr = mtx.SetBytes(b, wire.Packet)
+				}
+				if derr != nil || len(mtx.TxIn) != 1 {
+					add("coin-not-buildable", name, key, "a decodable one-input transaction", fmt.Sprint(derr))
+					continue
+				}
+				w.W.ClearUsedUTXOMark(&mtx)
+				seq := mtx.TxIn[0].Sequence
+				switch x.Class {
+				case "stk", "nbind":
+					if seq != uint64(x.Mat) {
+						add("withdraw-sequence", name, fmt.Sprintf("%s (lock time %d)", key, lt), fmt.Sprint(x.Mat), fmt.Sprint(seq))
+					}
+				default:
+					if seq&wire.SequenceLockTimeDisabled == 0 && seq&wire.SequenceLockTimeMask != 0 && seq != wire.MaxTxInSequenceNum {
+						add("withdraw-sequence", name, fmt.Sprintf("%s (lock time %d)", key, lt), "no relative lock", fmt.Sprint(seq))
+					}
 				}
 			}
 		}
@@ -1384,6 +1389,8 @@ func Run(u *Universe, h History, dir, mode string, opt Options) Result {
 		return ReplayFree(u, h, dir, opt.Seed)
 	case "trace":
 		return ReplayTraced(u, h, dir, opt.Seed)
+	case "trace-q":
+		return ReplayTracedQueries(u, h, dir, opt.Seed)
 	case "stop-free":
 		return StopFree(u, opt.Tasks, opt.Blocks, opt.Seed, opt.Final, dir)
 	case "gap":
